@@ -258,6 +258,12 @@ fn host_forms() -> Vec<(&'static str, bool /* dubious by the statement */, bool 
         ("host.c31.example:443", true, true),
         ("localhost:1", true, true),
         ("[::1]:443", true, true),
+        // a port separator without a usable port is still an explicit port
+        ("localhost:", true, true),
+        ("127.0.0.1:", true, true),
+        ("host.c31.example:", true, true),
+        ("host.c31.example:087300", true, true),
+        ("host.c31.example:0443", true, true),
         // borderline spellings: reported as information only
         ("localhost.", true, false),
         ("127.1", true, false),
